@@ -90,6 +90,12 @@ def generate(rng, tier):
                "wseed": rng.randrange(10**6) * 6 + rng.choice([1, 2, 4, 5])}
 
 
+class HeaderLikeMeta(dict):
+    """keys are case-insensitive, as in a FITS header"""
+    def __getitem__(self, key):
+        return super().__getitem__(key.lower() if isinstance(key, str) else key)
+
+
 def build(case):
     from ndcube import NDCube
     shape = tuple(case["shape"])
@@ -101,6 +107,8 @@ def build(case):
         d = d.astype(np.int64)                  # integer data (the values are small integers anyway)
     mk = case["mask"]
     mask = {"none": None, "false": False, "true": True}.get(mk, "arr")
+    if isinstance(mask, bool) and case["wseed"] % 2 == 0:
+        mask = np.bool_(mask)          # numpy's own boolean scalar (numpy.ma.nomask is numpy.False_)
     if mask == "arr":
         if mk == "allfalse":
             mask = np.zeros(shape, dtype=bool)
@@ -116,7 +124,11 @@ def build(case):
             # (a lazy payload with a lazy mask, or - every second case - with a plain numpy mask)
             mask = da.from_array(mask, chunks=tuple(max(1, s // 2) for s in shape))
     wcs = W.make_wcs(random.Random(case["wseed"]), shape, "probe")
-    return NDCube(data, wcs=wcs, mask=mask, unit=u.ct, meta={"m": 1}), d, mask
+    meta = {"m": 1}
+    if case["wseed"] % 3 == 2:
+        meta = HeaderLikeMeta(m=1)             # a mapping subclass with behaviour and an attribute of its own
+        meta.source = "level-1 file"
+    return NDCube(data, wcs=wcs, mask=mask, unit=u.ct, meta=meta), d, mask
 
 
 def run(case):
@@ -219,7 +231,7 @@ def run(case):
                 fails.append("handle_mask=None but a mask is present")
             mobs = None
         elif mjson is None or isinstance(mjson, bool):
-            if (om is None) != (mjson is None) or (mjson is not None and om is not mjson):
+            if (om is None) != (mjson is None) or (mjson is not None and om is not mask):
                 fails.append(f"scalar/absent mask not kept: {om!r}")
             mobs = mjson
         else:
@@ -235,6 +247,9 @@ def run(case):
             fails.append(f"unit {out.unit}")
         if out.meta is not cube.meta and out.meta != cube.meta:
             fails.append("meta not carried over")
+        if type(out.meta) is not type(cube.meta) or getattr(out.meta, "source", None) != getattr(cube.meta, "source", None):
+            fails.append(f"meta carried over as a {type(out.meta).__name__} (source attribute {getattr(out.meta, 'source', None)!r}), "
+                         f"the cube holds a {type(cube.meta).__name__}")
         res["obs"] = {"shape": list(got.shape), "values": [None if np.isnan(v) else v for v in got.ravel().tolist()],
                       "isnan": [bool(np.isnan(v)) for v in got.ravel().tolist()], "mask": mobs}
         # the result is a cube like any other: rebinning IT (same options) must again give the operation over the
